@@ -16,9 +16,10 @@ from mcx.build import MemFile, generic_points, generic_rotations, gro_text, itp_
 from mcx.core import Check
 from mcx.enum import de_bruijn_linear
 
-ATOMS = [('C1', 'RA', 1), ('C2', 'RA', 1), ('N1', 'RB', 2), ('N2', 'RB', 2), ('N3', 'RB', 2)]
+# three residues; the last two carry the SAME name (adjacent residues told apart by their number only)
+ATOMS = [('C1', 'RA', 1), ('C2', 'RA', 1), ('N1', 'RB', 2), ('N2', 'RB', 2), ('N3', 'RB', 3)]
 EDGES = [(0, 1), (1, 2), (2, 3), (2, 4)]
-RES_OF = [0, 0, 1, 1, 1]
+RES_OF = [0, 0, 1, 1, 2]
 N = 5
 
 
@@ -30,6 +31,7 @@ def _dec(a, d):
 def tables(seed):
     pos = _dec(generic_points(N, seed, tag=18), 3)
     vel = _dec(generic_points(N, seed, tag=19) * 0.3, 4)
+    vel[3] = 0.0                       # an atom at rest: a velocity of exactly zero is a velocity, not a missing one
     rot = generic_rotations(seed)[0]
     return {
         'pos': pos, 'vel': vel, 'rot': rot,
@@ -47,7 +49,7 @@ def build_system(T, with_vel=True):
     recs = []
     for rep in range(2):               # two instances of the species in the file
         for i, (an, rn, ri) in enumerate(ATOMS):
-            recs.append((ri + 2 * rep, rn, an, i + 1 + N * rep, T['pos'][i] + rep * 2.0,
+            recs.append((ri + 3 * rep, rn, an, i + 1 + N * rep, T['pos'][i] + rep * 2.0,
                          T['vel'][i] if with_vel else None))
     gro = MemFile(gro_text(recs), 'sys.gro')
     itp = MemFile(itp_text('MOL', ATOMS, EDGES), 'MOL.itp')
@@ -226,8 +228,8 @@ class C18(Check):
         elif kind == 'residue':
             st.okind = 'residue'
             st.orig = st.syst.system_gro[1]
-            st.m_orig = full.sub([2, 3, 4])
-            st.res_of = [0, 0, 0]
+            st.m_orig = full.sub([2, 3])
+            st.res_of = [0, 0]
         else:
             st.okind = 'atom'
             st.orig = st.syst.system_gro[1][1]
@@ -340,16 +342,16 @@ class C18(Check):
                     obj.name = 'ZZ'
                     mod.names = ['ZZ']
                 elif name == 'set_resids_list':
-                    obj.resids = [31, 32]
-                    mod.resids = [31 if r == 0 else 32 for r in st.res_of]
+                    obj.resids = [31, 32, 33]
+                    mod.resids = [31 + r for r in st.res_of]
                     mod.top = [(t[0], t[1], r) for t, r in zip(mod.top, mod.resids)]
                 elif name == 'set_resids_int':
                     obj.resids = 9
                     mod.resids = [9] * n
                     mod.top = [(t[0], t[1], 9) for t in mod.top]
                 elif name == 'set_resnames':
-                    obj.resnames = ['XA', 'XB']
-                    mod.resnames = ['XA' if r == 0 else 'XB' for r in st.res_of]
+                    obj.resnames = ['XA', 'XB', 'XC']
+                    mod.resnames = [('XA', 'XB', 'XC')[r] for r in st.res_of]
                     mod.top = [(t[0], rn, t[2]) for t, rn in zip(mod.top, mod.resnames)]
                 elif name == 'view_pos_index':
                     obj[i1].position = T['x'].copy()
